@@ -21,8 +21,30 @@ CONFIG = {
              "calls of every kind (segment, horizontal, vertical, turn, arc incl. ellipses, cubic, cubic_smooth, quadratic, quadratic_smooth, "
              "bezier, interpolation, parametric with and without gradient, commands), 30% translated / rotated: one `fd` case (24 random "
              "queries against long-double formulas and central differences, junctions, spine()), one `region` case per element (~100 "
-             "samples), for half of the paths `gds` and `oas`. quick 160 indices, thorough 4000. non-trivial: query / subeval / region "
-             "cases; distinct = distinct payload"),
+             "samples), for half of the paths `gds` and `oas`. quick 160 indices, thorough 4000. Then the user-function classes (path "
+             "indices from 1000000, class = index mod 6; quick 24 indices = about 200 cases, thorough 1200; counted as user-function-cases "
+             "in stats): class 0 / 1: the random path again, its calls taking for a share of the sections InterpolationType::Parametric "
+             "widths / offsets (user functions: exact linear ramp, exact smooth step, quadratic a + b u^2; also on parametric spine sections "
+             "with and without gradient function) and 40% of its straight caps made through EndType::Function: `construct`, `cont` (a "
+             "section made without width / offset argument stores the CONSTANT the previous interpolation takes at u = 1, computed here "
+             "from the ARGUMENTS of the earlier call, and the queries behind the junction return it), `fd` (additionally width / offset "
+             "at both sides of every junction and 12 random parameters against the arguments of the calls evaluated in long double and "
+             "the factors given to scale / transform), `udomain` (user functions only called with 0 <= u <= 1), `region` (centre curve "
+             "and half width from the user functions' data in long double), `endfn` (callback arguments against the side curves, its "
+             "points in the outline in the order returned, right side before the final cap, left side after it), class 1 also `pscale` "
+             "(scale incl. negative factors / transform incl. reflection, scale_width on / off: width x factor or unchanged, offset x "
+             "factor with the sign of a reflection, positions and centre points mapped); class 2 / 5: `cont`, one case per wrapper "
+             "(segment, horizontal, vertical, arc, turn, cubic, cubic_smooth, quadratic, quadratic_smooth, bezier, interpolation, "
+             "parametric, commands) after a Linear / Smooth / user-function taper made through segment / arc / quadratic, neither / "
+             "offset only / width only argument, 30% scaled in between, followed by one more argument-less segment; class 3: two `ptwin` "
+             "(the same path with built-in Linear / Smooth and with user functions evaluating the same expressions: position, gradient, "
+             "width, offset at 16 random parameters and both sides of every junction BIT FOR BIT, outlines bit for bit, else same "
+             "region within 4 tol) and one `gtwin` (parametric sections with against without gradient function under width / offset "
+             "changes: positions, widths, offsets bit for bit, gradients within 5e-3, same region within 8 tol + 5e-4 reach); class 4: "
+             "three `endfn` rounds (the callback returns 1..6 points, every count at every element, both ends) and three `endtwin` (the "
+             "callback rebuilding the Flush / HalfWidth / Extended cap from its two points against the built-in cap, vertex by vertex "
+             "within 1e-9). Paths whose spine curves tighter than twice the reach are exempt from the side / argument / gtwin-outline "
+             "checks as they are from the region oracle. non-trivial: query / subeval / region cases; distinct = distinct payload"),
     "trusted": ["harness evaluates Arc / Parametric sections and the displaced centre curve in long double (specification side)",
                 "doubles are rounded to the 2^-30 grid (error <= 2^-31) before the exact oracle runs",
                 "driver converts the bit patterns of doubles to the rationals they are and back (exact or reported as `inexact`)"],
